@@ -302,7 +302,10 @@ fn builders_and_proplists(rep: &Report) {
         }
     }
     // proplists of length <= 3 over {{a,1},{a,2},{b,1},{b,2},a,b}
-    let elems = [OwnedTerm::Tuple(vec![atom("a"), int(1)]), OwnedTerm::Tuple(vec![atom("a"), int(2)]), OwnedTerm::Tuple(vec![atom("b"), int(1)]), OwnedTerm::Tuple(vec![atom("b"), int(2)]), atom("a"), atom("b")];
+    // keys of every kind of term: map_to_proplist emits a {K, V} tuple for any key, so all of them are well-formed entries
+    let other_keys: Vec<OwnedTerm> = vec![int(1), OwnedTerm::Float(1.5), OwnedTerm::Binary(b"k".to_vec()), OwnedTerm::String("s".into()), OwnedTerm::Tuple(vec![atom("x")]), OwnedTerm::List(vec![int(1)]), OwnedTerm::Nil];
+    let mut elems = vec![OwnedTerm::Tuple(vec![atom("a"), int(1)]), OwnedTerm::Tuple(vec![atom("a"), int(2)]), OwnedTerm::Tuple(vec![atom("b"), int(1)]), OwnedTerm::Tuple(vec![atom("b"), int(2)]), atom("a"), atom("b")];
+    for k in &other_keys { elems.push(OwnedTerm::Tuple(vec![k.clone(), int(1)])); }
     let key_of = |e: &OwnedTerm| match e { OwnedTerm::Tuple(t) => t[0].clone(), o => o.clone() };
     let val_of = |e: &OwnedTerm| match e { OwnedTerm::Tuple(t) => t[1].clone(), _ => OwnedTerm::boolean(true) };
     for n in 0..=3usize {
@@ -327,12 +330,20 @@ fn builders_and_proplists(rep: &Report) {
             }
         }
     }
-    // maps of <= 2 entries: to proplist and back
-    for ka in ["a", "b"] { for va in [1i64, 2] { for kb in ["a", "b", "c"] { for vb in [1i64, 2] {
+    // maps of <= 2 entries over keys of every kind: to proplist and back
+    let mut keys: Vec<OwnedTerm> = vec![atom("a"), atom("b"), atom("c")];
+    keys.extend(other_keys.iter().cloned());
+    for ka in &keys { for va in [1i64, 2] { for kb in &keys { for vb in [1i64, 2] {
         rep.add("evaluations", 1);
-        let m = map_of(vec![(atom(ka), int(va)), (atom(kb), int(vb))]);
+        let m = map_of(vec![(ka.clone(), int(va)), (kb.clone(), int(vb))]);
         let back = m.map_to_proplist().and_then(|p| p.proplist_to_map());
         if back.as_ref().ok() != Some(&m) { rep.violation("map -> proplist -> map is not the identity", json!({"map": crate::denote::denote(&m).short()})); }
+        // and the same after the proplist has been through the wire encoding
+        if let Ok(pl) = m.map_to_proplist() {
+            let wired = erltf::encode(&pl).ok().and_then(|b| erltf::decode(&b).ok()).and_then(|t| t.proplist_to_map().ok());
+            // compared as Erlang values: a Rust String comes back from the wire as the binary it denotes
+            if !wired.as_ref().map(|w| vcore::refval::exact_eq(&crate::denote::denote(w), &crate::denote::denote(&m))).unwrap_or(false) { rep.violation("map -> proplist -> wire -> map is not the identity", json!({"map": crate::denote::denote(&m).short()})); }
+        }
     } } } }
 }
 
@@ -357,7 +368,7 @@ fn run_inner(rep: &Report) -> serde_json::Value {
     json!({
         "evaluations": rep.get("evaluations"),
         "distinct_nontrivial": rep.get("evaluations"),
-        "rule": "ranges: (first,last,step) in an 11-value boundary set cubed + all |first|,|last|<=6,|step|<=3 + end-of-range stepping cases, against an i128 reference for len/contains/iteration/size_hint, and term/wire round trips; dates: every (month,day) pattern x 14 years; times: 9^3 x 6 x 9 grid, naive/utc/zoned date-times on a thinned grid; out-of-type-range and wrong-shape fields; map sets over all <=3-subsets of 12 terms; 5 exception types x 4 messages; builders for all key/value sequences <=3; all proplists of length <=3 over 6 elements and all maps of <=2 entries; every case distinct by construction",
+        "rule": "ranges: (first,last,step) in an 11-value boundary set cubed + all |first|,|last|<=6,|step|<=3 + end-of-range stepping cases, against an i128 reference for len/contains/iteration/size_hint, and term/wire round trips; dates: every (month,day) pattern x 14 years; times: 9^3 x 6 x 9 grid, naive/utc/zoned date-times on a thinned grid; out-of-type-range and wrong-shape fields; map sets over all <=3-subsets of 12 terms; 5 exception types x 4 messages; builders for all key/value sequences <=3; all proplists of length <=3 over 13 elements (atom, integer, float, binary, string, tuple, list and nil keys, bare atoms) and all maps of <=2 entries over 10 keys of those kinds, also through the wire; every case distinct by construction",
         "exhaustive": true,
     })
 }
